@@ -32,6 +32,9 @@ def plan(tier, seed):
     n = 36 if tier == "quick" else 300
     for i in range(n):
         cases.append({"kind": "enum", "seed": seed * 1001033 + i, "limit": 250 if tier == "quick" else 3000})
+    for i in range(10 if tier == "quick" else 120):
+        # graphs whose only start node is NOT in the first written token (initiator / core written after the ordinary units)
+        cases.append({"kind": "random", "arch": "initiator", "seed": seed * 1001041 + i, "mols": 4, "gens": 4})
     return cases
 
 
@@ -217,6 +220,25 @@ def search_partition(G, tmpl, node_tok, tok_atoms, static, verify, budget=3000):
         return "budget"
 
 
+def start_nodes(graph):
+    """nodes of a directed (multi)graph from which every node can be reached along its edges (own breadth-first search)"""
+    succ = {n: set() for n in graph.nodes()}
+    for e in graph.edges():
+        succ[e[0]].add(e[1])
+    total = len(succ)
+    out = []
+    for n in succ:
+        seen, todo = {n}, [n]
+        while todo:
+            for y in succ[todo.pop()]:
+                if y not in seen:
+                    seen.add(y)
+                    todo.append(y)
+        if len(seen) == total:
+            out.append(n)
+    return out
+
+
 def generate(sag, rng, reuse=None):
     from gbigsmiles import AtomGraph
 
@@ -256,7 +278,13 @@ def run_case(case):
                 cnt["skipped_draw_failed"] += 1
                 return None
             if "does not contain a single source node" in t:
-                cnt["no_start_node"] += 1  # outside the quantifier: 'every graph that has a start node'
+                # 'every graph that has a start node': whether the INPUT graph has one is decided here, by a plain search over its edges
+                src = start_nodes(sag.graph)
+                if src:
+                    cnt["start_node_exists_but_refused"] += 1
+                    viol.append({"cls": "c18.graph-with-start-node-refused", "msg": f"AtomGraph.generate raised {t[:120]!r} although every node of the stochastic atom graph can be reached from node {src[0]} (and {len(src) - 1} others)", "text": text, "label": label})
+                else:
+                    cnt["no_start_node"] += 1  # outside the quantifier
                 return None
             cnt["generate_raised"] += 1
             cnt["generate_raised_" + type(exc).__name__] += 1
@@ -284,7 +312,7 @@ def run_case(case):
 
         series = ["CC(C)O", "CCCO", "CC(C)N", "CCCS", "CC(O)C", "NCCC", "CC(=O)O"]
         rng.shuffle(series)
-        for smi in series[:5]:
+        for smi in series[:5] if case.get("arch") is None else []:
             try:
                 u = gen.build_token(rng, smi, [Desc("<"), Desc(">")], "ends")
                 ast_i = MolAst([StochAst(Desc(""), Desc(""), [u], [gen.single_atom_token("F", Desc("<")), gen.single_atom_token("Br", Desc(">"))], DistAst("schulz_zimm", (300.0, 200.0)))], arch="isomer-series")
@@ -299,7 +327,11 @@ def run_case(case):
                 continue
         for k in range(case["mols"]):
             try:
-                ast = sz_molecule(rng, small=(k % 2 == 0), mean_units=[2, 3, 5, 7][k % 4])
+                if case.get("arch") == "initiator":
+                    ast = gen.arch_initiator(gen.Ctx(rng, small=(k % 2 == 0)), ["schulz_zimm"], [2, 3, 5, 7][k % 4])
+                    cnt["initiator_molecules"] += 1
+                else:
+                    ast = sz_molecule(rng, small=(k % 2 == 0), mean_units=[2, 3, 5, 7][k % 4])
             except ValueError:
                 continue
             text = ast.to_text(True, rng.randrange(256))
